@@ -208,6 +208,23 @@ class Checker:
                     json.dump({'property': pid, 'obligation': 'package-level variables are written only by their initialiser', 'writes': self.global_writes,
                                'failing_input_found': False}, f_, indent=1)
                 print('VIOLATION property=%s replay=%s obligation="package-level variables are written only by their initialiser" no-failing-input-found' % (pid, gp))
+        # instances must not share mutable state through package-level variables (ownership scan, shared.py)
+        self.shared_accepted, self.shared_report = [], []
+        if pid in SHARED_STATE_PROPERTIES:
+            from . import shared as shared_mod
+            sf, self.shared_accepted, self.shared_report = shared_mod.scan(prog, cs.shared)
+            for g, what in sf:
+                print('SHARED-STATE: %s' % what)
+                os.makedirs(os.path.join(VERIF, 'replays'), exist_ok=True)
+                gp = os.path.join(VERIF, 'replays', '%s-shared-state.json' % pid)
+                with open(gp, 'w') as f_:
+                    json.dump({'property': pid, 'obligation': 'instances share no mutable state through package-level variables',
+                               'findings': [w for _, w in sf], 'failing_input_found': False}, f_, indent=1)
+                print('VIOLATION property=%s replay=%s obligation="instances share no mutable state through package-level variables (%s)" no-failing-input-found'
+                      % (pid, gp, g.rsplit('/', 1)[-1]))
+            self.shared_findings = sf
+        else:
+            self.shared_findings = []
         # discharge
         items = []
         self.deferred = []
@@ -396,8 +413,8 @@ class Checker:
         print('phases: load %.1fs, total %.1fs' % (prog.load_time, time.time() - self.t0))
         n_claimed = len(results) - len(kf_hits)
         print('%s: %d functions under contract, %d obligations, %d discharged, %d known findings, %d violations, %.1fs'
-              % (pid, len(vcs), n_claimed, len(discharged), len(kf_hits), len(violations), time.time() - self.t0))
-        if violations or vac or getattr(self, 'extra_violations', 0) or self.global_writes:
+              % (pid, len(vcs), n_claimed, len(discharged), len(kf_hits), len(violations) + len(self.shared_findings), time.time() - self.t0))
+        if violations or vac or getattr(self, 'extra_violations', 0) or self.global_writes or self.shared_findings:
             return 1
         return 0
 
@@ -460,13 +477,15 @@ class Checker:
                 'notes_not_counted': getattr(self, 'notes', []),
                 'deferred_to_thorough_tier': self.deferred,
                 'bounded': self.bounded,
+                'ownership_scan': {'scope': 'every package-level variable of the module (go/ssa): handed on to instances and mutable, or written outside init',
+                                   'findings': [w for _, w in self.shared_findings], 'accepted_shared': self.shared_accepted, 'variables': self.shared_report},
                 'integer_mode': 'mathematical Int with exact wrap-around (wrap64/wrap32) on + - *; lengths <= 2^40 assumed',
                 'extraction': 'go/ssa built from the working tree on this run; drops comments, parenthesisation, names of temporaries',
                 'samples': samples,
                 'load_time_s': round(prog.load_time, 2),
             },
-            'assumptions': sorted(set(cs.assumptions)) + ASSUMPTIONS,
-            'wall_s': round(time.time() - self.t0, 2), 'violations': len(violations) + getattr(self, 'extra_violations', 0),
+            'assumptions': sorted(set(cs.assumptions)) + ASSUMPTIONS + ['A17 ' + a for a in self.shared_accepted],
+            'wall_s': round(time.time() - self.t0, 2), 'violations': len(violations) + getattr(self, 'extra_violations', 0) + len(self.shared_findings),
         }
         # (the seed scripts run checks against deliberately broken trees: they redirect the evidence elsewhere)
         evdir = os.environ.get('GOVC_EVIDENCE_DIR') or os.path.join(VERIF, 'evidence')
@@ -476,6 +495,7 @@ class Checker:
 
 
 RACE_PROPERTIES = ('C19',)
+SHARED_STATE_PROPERTIES = ('C05', 'C19')
 PROPERTY_BOUNDED = {'C07': 'RoundTripFamily', 'C01': ['TreeFamily', 'ParserFamily'], 'C10': 'MustacheFamily', 'C09': 'CsvFamily', 'C13': 'LexemeFamily', 'C05': 'HistoryFamily', 'C18': 'DiscoveryFamily', 'C19': ['EvaluatorFamily', 'MustacheFamily'], 'C03': ['EvaluatorFamily', 'MustacheFamily'], 'C08': 'FunctionFamily', 'C02': 'ParserFamily', 'C04': 'TokenizerFamily', 'C12': 'TokenizerFamily', 'C15': 'OptionsFamily', 'C14': 'QuoteFamily', 'C16': 'SymbolFamily'}
 
 ASSUMPTIONS = [
